@@ -21,6 +21,7 @@ EXPLANATION = (
     "that nests one level per element of a user list turns program LENGTH into tree depth; "
     "C17-R4 chain slots of the unparser do not parenthesise the same-kind child; C05-IB instance: "
     "_iter_branch opens one guard level per interrupt, not per statement."
+    ' C17-R1: recursion in the repository only over bounded nesting (a cycle is bounded when every cycle contains a step through a bounded field); C17-R4 also: parentheses a generator adds by itself in a chain slot only for a test on the WHOLE child text; C17-R5 no rejection by size; C17-R6 the short_circuit template does not nest one `or` per elif.'
 )
 ASSUMPTIONS = [
     "the parser limits bracket nesting (about 200 levels) and the nesting of format specs (2 levels), so recursion over target/index patterns and over format_spec is bounded",
